@@ -30,6 +30,14 @@ def _table():
 
 
 TABLE = _table()
+TABLE_SET = set(TABLE)
+
+
+def nearest_exact(y):
+    """closest tick to the exact value of the double y (upper tick on an exact tie)"""
+    fy = F(y)
+    best = min(TABLE, key=lambda t: (abs(t - fy), -t))
+    return float(best)
 ORACLE = SymList([decimal.Decimal(x.numerator) / decimal.Decimal(x.denominator) for x in TABLE])
 FINEST = SymList([decimal.Decimal(n) / 100 for n in range(101, 100001)])
 
@@ -144,6 +152,29 @@ def h17l(c):
         if b != nearest(x, TABLE) or a != a2:
             bad.append(x)
     c.ob("nearest-price.independent-of-call-order (%d numbers, both ladders)" % len(grid), not bad)
+    # floating-point neighbours of ticks and of tick mid-points (the property's quantifier names them; the IEEE layer is not
+    # modelled symbolically, so they are enumerated concretely): nearest price is still the closest tick, and an order priced one
+    # ulp off a tick is not on the ladder
+    import math
+    bad_n, bad_v = [], []
+    ticks = [float(t) for t in TABLE]
+    mids = [float((a + b) / 2) for a, b in zip(TABLE, TABLE[1:])]
+    for x in ticks[::3] + mids[::3]:
+        for y in (math.nextafter(x, 0.0), math.nextafter(x, 2000.0)):
+            if 1.01 < y < 1000 and utils.get_nearest_price(y) != nearest_exact(y):
+                bad_n.append(y)
+    c.ob("nearest-price.float-neighbours-of-ticks-and-midpoints", not bad_n, first=str(bad_n[:3]))
+    fl, (sclient,), (strategy,) = cm.new_sim()
+    market = cm.add_market(fl, cm.book([cm.runner(1)]))
+    with cm.config_set(simulated=True):
+        for x in ticks[::25] + [1.1 + 2.2, 0.7 + 0.6]:
+            for y in (math.nextafter(x, 0.0), math.nextafter(x, 2000.0), x):
+                on = F(decimal.Decimal(repr(y))) in TABLE_SET
+                o = cm.mk_limit(strategy, "BACK", y, 50.0)
+                acc = market.place_order(o)
+                if acc != on:
+                    bad_v.append(y)
+    c.ob("order-validation.float-neighbours-of-ticks-refused", not bad_v, first=str(bad_v[:3]))
     c.cover("ladders")
 
 
@@ -182,9 +213,10 @@ def h17c(c, mode="P"):
             ld = {"LIMIT-CLASSIC": "CLASSIC", "LIMIT-FINEST": "FINEST", "LIMIT-LINE": "LINE_RANGE"}[kind]
             lri = None
             if ld == "LINE_RANGE":
-                iv = c.choose("line_interval", [1.0, 0.5])
-                lri = cm.NS(min_unit_value=0.5, max_unit_value=6.5, interval=iv) if iv == 1.0 else cm.NS(min_unit_value=0, max_unit_value=3, interval=0.5)
-                price = c.pick("line", [0, 0.25, 0.5, 1.0, 1.5, 2.5, 3.0, 3.5, 6.5, 7.5])
+                iv = c.choose("line_interval", [1.0, 0.5, "from-2.5"])
+                lri = {1.0: cm.NS(min_unit_value=0.5, max_unit_value=6.5, interval=1.0), 0.5: cm.NS(min_unit_value=0, max_unit_value=3, interval=0.5),
+                       "from-2.5": cm.NS(min_unit_value=2.5, max_unit_value=6.5, interval=1.0)}[iv]
+                price = c.pick("line", [-0.5, 0, 0.25, 0.5, 1.0, 1.5, 2.5, 3.0, 3.5, 6.5, 7.5])
             o = cm.mk_limit(strategy, side, price, size, ladder_def=ld, line_range_info=lri, trade=tr)
         elif kind == "LOC":
             o = cm.mk_loc(strategy, side, size, price, trade=tr)
@@ -202,10 +234,12 @@ def h17c(c, mode="P"):
         elif kind == "LIMIT-FINEST":
             on = _member(FINEST, price)
         elif kind == "LIMIT-LINE":
-            if lri.interval == 1.0:
+            if iv == 1.0:
                 on = c.Or(*[price == 0.5 + k for k in range(7)])
-            else:
+            elif iv == 0.5:
                 on = c.Or(*[price == 0.5 * k for k in range(7)])
+            else:
+                on = c.Or(*[price == 2.5 + k for k in range(5)])
         elif kind == "BETDAQ":
             on = _member(SymList(list(utils.BETDAQ_PRICES.data if hasattr(utils.BETDAQ_PRICES, "data") else utils.BETDAQ_PRICES)), price)
         else:
